@@ -74,7 +74,7 @@ package memberlist
 //@   inv N2 [C07]: forall i int :: 0 <= i && i < len(m.nodes) ==> allocated(m.nodes[i]) && has(m.nodeMap, m.nodes[i].Name) && m.nodeMap[m.nodes[i].Name] == m.nodes[i]
 //@   inv N3 [C07]: forall i int, j int :: 0 <= i && i < j && j < len(m.nodes) ==> m.nodes[i] != m.nodes[j]
 //@   inv N4 [C07]: len(m.nodes) == len(m.nodeMap)
-//@   inv N5 [C01,C06]: forall n string :: has(m.nodeTimers, n) <==> (has(m.nodeMap, n) && m.nodeMap[n].State == StateSuspect)
+//@   inv N5 [C01,C03,C06]: forall n string :: has(m.nodeTimers, n) <==> (has(m.nodeMap, n) && m.nodeMap[n].State == StateSuspect)
 //@   inv N5b [C06]: forall n string :: has(m.nodeTimers, n) ==> allocated(m.nodeTimers[n])
 //@   inv N5c [C06]: forall n string :: has(m.nodeTimers, n) ==> suspOK(m.nodeTimers[n])
 //@   inv N6 [C02]: has(m.nodeMap, m.config.Name) ==> m.nodeMap[m.config.Name].State != StateSuspect
@@ -541,11 +541,14 @@ package memberlist
 // ---------------------------------------------------------------------
 
 //@ ghost $strLabel string
+//@ ghost $streamErr int
 //@ atomic Memberlist.pushPullReq rely stable
 //@ func (*Memberlist).handleConn(m, conn)
 //@   safety [C13]
 //@   requires ok: mlNet(m) && conn != nil
 //@   at call RemoveLabelHeaderFromStream: set $strLabel := res1
+//@   at call (*Memberlist).readStream: set $streamErr := res3
+//@   at call (*Memberlist).rawSendMsgStream: assert tcp-ack-only-for-us [C03,C19]: $streamErr != 0 || p.Node == "" || p.Node == m.config.Name
 //@   at call (*Memberlist).readStream: assert label-isolation [C16]: ite(m.config.SkipInboundLabelCheck, $strLabel == "", $strLabel == m.config.Label) && streamLabel == m.config.Label
 //@   at call (*Memberlist).readRemoteState: assert cap-concurrent [C13]: $numConcurrent < maxPushPullRequests
 //@   at call (*Memberlist).sendLocalState: assert reply-only-if-merging [C09,C13]: $numConcurrent < maxPushPullRequests
@@ -764,8 +767,8 @@ package memberlist
 //@   at call (*Memberlist).encodeAndSendMsg #1: set $sendErr := res
 //@   at call (*Memberlist).rawSendMsgPacket: set $sendErr := res
 //@   at call (*Memberlist).suspectNode: assert suspect-own-evidence [C03,C19]: s.Node == node.Name && s.Incarnation == node.Incarnation && s.From == m.config.Name
-//@   ensures health-falls-only-after-send [C19]: *awarenessDelta == 0 - 1 ==> $sendErr == 0
-//@   ensures health-delta-range [C19]: *awarenessDelta >= 0 - 1
+//@   ensures-internal health-falls-only-after-send [C19]: *awarenessDelta == 0 - 1 ==> $sendErr == 0
+//@   ensures-internal health-delta-range [C19]: *awarenessDelta >= 0 - 1
 
 //@ func (*awareness).ScaleTimeout(a, timeout)
 //@   safety [C03,C19]
@@ -1034,3 +1037,24 @@ package memberlist
 //@ lock Memberlist.tickerLock recv m
 //@   protects Memberlist.tickers, Memberlist.stopTick, elems *time.Ticker, $closed
 //@   inv TK [C20]: len(m.tickers) > 0 ==> m.stopTick != nil && !closed(m.stopTick) && (forall i int :: 0 <= i && i < len(m.tickers) ==> m.tickers[i] != nil)
+
+// ---------------------------------------------------------------------
+// C03: probe schedule and failure wiring (the wall-clock bound itself is liveness and is not decided)
+// ---------------------------------------------------------------------
+//@ ghost $seenLen int
+//@ ghost $seenIdx int
+//@ ghost $probes int
+//@ func (*Memberlist).probe(m)
+//@   safety [C03,C13,C20]
+//@   requires ok: mlNet(m)
+//@   requires cursor: m.probeIndex >= 0      // only probe writes the cursor (single ticker goroutine)
+//@   ensures cursor [C03]: m.probeIndex >= 0
+//@   at call (*sync.RWMutex).RUnlock: setbefore $seenLen := len(m.nodes)
+//@   at call (*sync.RWMutex).RUnlock: setbefore $seenIdx := m.probeIndex
+//@   at call (*Memberlist).resetNodes: assert wrap-only-at-end [C03]: $seenIdx >= $seenLen
+//@   at call (*Memberlist).probeNode: assert never-self-never-dead [C03]: node.Name != m.config.Name && node.State != StateDead && node.State != StateLeft
+//@   at call (*Memberlist).probeNode: assert cursor-advances-by-one [C03]: m.probeIndex == $seenIdx + 1 && $seenIdx < $seenLen
+//@   at call (*Memberlist).probeNode: set $probes := $probes + 1
+//@   loop #1 invariant one [C03]: $probes == old($probes) && numCheck >= 0 && m.probeIndex >= 0
+//@   ensures at-most-one-probe [C03]: $probes <= old($probes) + 1
+//@   ensures gives-up-only-after-full-pass [C03]: $probes == old($probes) ==> numCheck >= $seenLen
